@@ -45,8 +45,10 @@ TRUSTED = [
 ]
 ASSUMPTIONS = [
     "depth: every remote hop costs interpreter frames on both peers, so the real code reaches the interpreter's recursion "
-    "limit at a much smaller call depth than the same computation in one process (measured every run, see "
-    "observations_outside_the_property); the statement's 'any depth' is the model's, the code's is bounded by that limit",
+    "limit at a much smaller call depth than the same computation in one process (measured every run AT THE DEFAULT "
+    "recursion limit of 1000 - the harness itself runs with 3000 -, see observations_outside_the_property: the first "
+    "ping-pong depth at which the distributed run fails while the one-process run returns); the statement's 'any depth' is "
+    "the model's, the code's is bounded by that limit",
     "sync_request_timeout (30 s by default) is not in the model: a nested call that outlasts it raises at the caller "
     "while the callee still runs once; the deterministic network's virtual clock never lets it fire",
     "handlers cannot bind the caught exception (no `except ... as e` in the language): 'caught at another level' is "
@@ -61,7 +63,12 @@ ASSUMPTIONS = [
     "over-limit int are compared model-vs-code by outcome class only and are outside the oracle",
     "built-in exception classes (a class the receiver does not know arrives as a generic stand-in: C09), no subclass "
     "relation between the classes raised and the classes caught other than `except Exception`",
-    "keyword names of one call are distinct (Python guarantees it)",
+    "keyword names of one call are distinct (Python guarantees it) and exact `str` objects: a name that is an instance of a "
+    "str SUBCLASS is boxed by reference inside the kwargs tuple and refused by the peer (TypeError: keywords must be strings; "
+    "measured every run, observations_outside_the_property) - outside the modelled language",
+    "`raise` builds the exception on the raising side from a class name and arguments: a function that raises an exception "
+    "OBJECT or CLASS it received by reference raises a proxy, which the interpreter refuses (TypeError: exceptions must "
+    "derive from BaseException; measured every run) - inherent in passing by reference, outside the modelled language",
     "objects lent to the peer stay lent for the duration of the computation (no release race inside one call tree: C10)",
     "repr() text of a non-serializable exception argument that lists a hash container (frozenset / set / dict) is "
     "compared as a multiset of characters: a frozenset that crossed the connection is an equal copy whose iteration "
@@ -1271,8 +1278,21 @@ def outside_observations():
         out["default-configuration probe"] = "could not run: %s" % type(ex).__name__
     # (2) every remote hop costs interpreter frames on both sides: a ping-pong deep enough exhausts the recursion limit
     # in the distributed run long before the one-process run
+    # (probed at the interpreter's DEFAULT recursion limit: the harness itself runs with a raised one)
     import sys as _sys
-    for depth in (60, 200, 350):
+    saved_limit = _sys.getrecursionlimit()
+    _sys.setrecursionlimit(1000)
+    try:
+        out.update(_ping_pong_depths(V, _sys))
+    finally:
+        _sys.setrecursionlimit(saved_limit)
+    out.update(_outside_language_probes())
+    return out
+
+
+def _ping_pong_depths(V, _sys):
+    out = {}
+    for depth in (10, 25, 50, 100, 200, 350):
         fns = []
         for d in range(depth):
             fns.append(dict(owner="BA"[d % 2], body=[("call", 0, V(Ref("BA"[(d + 1) % 2], d + 1)), [], []), ("ret", ("v", 0))]))
@@ -1294,6 +1314,46 @@ def outside_observations():
         out["ping-pong of depth %d (recursion limit %d)" % (depth, _sys.getrecursionlimit())] = "distributed: %s; one process: %s" % (do, lo)
         if not do.startswith("ret"):
             break
+    return out
+
+
+def _outside_language_probes():
+    """two behaviours of the real code that the call-tree language cannot express (see ASSUMPTIONS): measured, not judged"""
+    out = {}
+    try:
+        import rpyc
+
+        class Svc(rpyc.Service):
+            def exposed_call(self, f, *a, **k):
+                return f(*a, **k)
+
+            def exposed_raiser(self, e):
+                raise e
+        cfg = dict(allow_public_attrs=True)
+        conn = rpyc.connect_thread(remote_service=Svc, config=cfg, remote_config=cfg)
+        try:
+            class StrSub(str):
+                pass
+
+            def f(**kw):
+                return sorted(kw)
+
+            def brief(fn):
+                try:
+                    return "returns %r" % (fn(),)
+                except BaseException as ex:  # noqa
+                    return "raises %s" % type(ex).__name__
+            out["a keyword whose NAME is an instance of a str subclass (outside the language: names are exact str)"] = \
+                "through the connection: %s; locally: %s" % (brief(lambda: conn.root.call(f, **{StrSub("a"): 1})), brief(lambda: f(**{StrSub("a"): 1})))
+
+            def raiser(e):
+                raise e
+            out["raising an exception OBJECT that was passed by reference (outside the language: `raise` builds the exception from a class name)"] = \
+                "through the connection: %s; locally: %s" % (brief(lambda: conn.root.raiser(ValueError("v"))), brief(lambda: raiser(ValueError("v"))))
+        finally:
+            conn.close()
+    except Exception as ex:  # noqa
+        out["outside-the-language probes"] = "could not run: %s" % type(ex).__name__
     return out
 
 
